@@ -391,114 +391,129 @@ func TestC08Project(t *testing.T) {
 		if diff := hx.Diff(d.Exp, obs); diff != "" {
 			t.Fatalf("derived frame differs from model: %s\n%s", diff, d.String())
 		}
-		in := d.Exp
-		n := in.N()
-		names := in.Names()
-		var req string
-		var res qframe.QFrame
-		var want hx.Table
-		wantErr, eitherErr, skipRows := false, false, false
-		op := rapid.SampledFrom([]string{"select", "drop", "slice", "copy"}).Draw(t, "op")
-		run := func(f func()) {
-			if perr := hx.Safely(f); perr != nil {
-				t.Fatalf("%s panicked: %v\n%s", req, perr, d.String())
+		// a chain of 1-3 requests: later requests see the column positions left by earlier ones
+		cur, in := d.QF, d.Exp
+		var reqs []string
+		desc := func() string { return d.String() + "requests " + strings.Join(reqs, " ; ") }
+		nreq := rapid.IntRange(1, 3).Draw(t, "nreq")
+		for step := 0; step < nreq; step++ {
+			n := in.N()
+			names := in.Names()
+			if len(names) == 0 {
+				break
 			}
-		}
-		switch op {
-		case "select":
-			perm := rapid.Permutation(names).Draw(t, "perm")
-			k := rapid.IntRange(1, len(perm)).Draw(t, "k")
-			cols := append([]string(nil), perm[:k]...)
-			if rapid.IntRange(0, 5).Draw(t, "unknown") == 0 {
-				cols[rapid.IntRange(0, k-1).Draw(t, "pos")] = "nosuchcol"
-				wantErr = true
+			var req string
+			var res qframe.QFrame
+			var want hx.Table
+			wantErr, eitherErr, skipRows := false, false, false
+			op := rapid.SampledFrom([]string{"select", "drop", "slice", "copy", "copy"}).Draw(t, "op")
+			run := func(f func()) {
+				if perr := hx.Safely(f); perr != nil {
+					t.Fatalf("%s panicked: %v\n%s", req, perr, desc())
+				}
 			}
-			req = fmt.Sprintf("Select(%q)", cols)
-			run(func() { res = d.QF.Select(cols...) })
-			if !wantErr {
-				want = in.Project(cols)
+			switch op {
+			case "select":
+				perm := rapid.Permutation(names).Draw(t, "perm")
+				k := rapid.IntRange(1, len(perm)).Draw(t, "k")
+				cols := append([]string(nil), perm[:k]...)
+				if rapid.IntRange(0, 7).Draw(t, "unknown") == 0 {
+					cols[rapid.IntRange(0, k-1).Draw(t, "pos")] = "nosuchcol"
+					wantErr = true
+				}
+				req = fmt.Sprintf("Select(%q)", cols)
+				run(func() { res = cur.Select(cols...) })
+				if !wantErr {
+					want = in.Project(cols)
+				}
+			case "drop":
+				perm := rapid.Permutation(names).Draw(t, "perm")
+				k := rapid.IntRange(0, len(perm)).Draw(t, "k")
+				cols := append([]string(nil), perm[:k]...)
+				if rapid.IntRange(0, 7).Draw(t, "unknown") == 0 {
+					cols = append(cols, "nosuchcol")
+					eitherErr = true
+				}
+				req = fmt.Sprintf("Drop(%q)", cols)
+				run(func() { res = cur.Drop(cols...) })
+				want = in.Without(cols...)
+				if len(want.Cols) == 0 {
+					skipRows = true
+				}
+			case "slice":
+				a := rapid.IntRange(-2, n+2).Draw(t, "a")
+				b := rapid.IntRange(-2, n+3).Draw(t, "b")
+				if rapid.Bool().Draw(t, "validslice") {
+					a = rapid.IntRange(0, n).Draw(t, "va")
+					b = rapid.IntRange(a, n).Draw(t, "vb")
+				}
+				req = fmt.Sprintf("Slice(%d,%d)", a, b)
+				run(func() { res = cur.Slice(a, b) })
+				if a < 0 || a > b || b > n {
+					wantErr = true
+				} else {
+					want = in.Rows(hx.Iota(n)[a:b])
+				}
+			case "copy":
+				src := rapid.SampledFrom(append(append([]string(nil), names...), "nosuchcol")).Draw(t, "src")
+				dst := rapid.SampledFrom(append(append([]string(nil), names...), "n1", "n2", "", "'q'", "$v")).Draw(t, "dst")
+				req = fmt.Sprintf("Copy(%q,%q)", dst, src)
+				run(func() { res = cur.Copy(dst, src) })
+				switch {
+				case src == "nosuchcol":
+					wantErr = true
+				case dst == src:
+					want = in
+				case dst == "" || dst == "'q'" || dst == "$v":
+					wantErr = true
+				default:
+					c := in.MustCol(src)
+					c.Name = dst
+					want = in.With(c)
+				}
 			}
-		case "drop":
-			perm := rapid.Permutation(names).Draw(t, "perm")
-			k := rapid.IntRange(0, len(perm)).Draw(t, "k")
-			cols := append([]string(nil), perm[:k]...)
-			if rapid.IntRange(0, 5).Draw(t, "unknown") == 0 {
-				cols = append(cols, "nosuchcol")
-				eitherErr = true
-			}
-			req = fmt.Sprintf("Drop(%q)", cols)
-			run(func() { res = d.QF.Drop(cols...) })
-			want = in.Without(cols...)
-			if len(want.Cols) == 0 {
-				skipRows = true
-			}
-		case "slice":
-			a := rapid.IntRange(-2, n+2).Draw(t, "a")
-			b := rapid.IntRange(-2, n+3).Draw(t, "b")
-			req = fmt.Sprintf("Slice(%d,%d)", a, b)
-			run(func() { res = d.QF.Slice(a, b) })
-			if a < 0 || a > b || b > n {
-				wantErr = true
-			} else {
-				want = in.Rows(hx.Iota(n)[a:b])
-			}
-		case "copy":
-			src := rapid.SampledFrom(append(append([]string(nil), names...), "nosuchcol")).Draw(t, "src")
-			dst := rapid.SampledFrom(append(append([]string(nil), names...), "n1", "n2", "", "'q'", "$v")).Draw(t, "dst")
-			req = fmt.Sprintf("Copy(%q,%q)", dst, src)
-			run(func() { res = d.QF.Copy(dst, src) })
+			reqs = append(reqs, req)
 			switch {
-			case src == "nosuchcol":
-				wantErr = true
-			case dst == src:
-				want = in
-			case dst == "" || dst == "'q'" || dst == "$v":
-				wantErr = true
-			default:
-				c := in.MustCol(src)
-				c.Name = dst
-				want = in.With(c)
+			case wantErr:
+				if res.Err == nil {
+					t.Fatalf("%s must be rejected through Err\n%s", req, desc())
+				}
+				if res.Len() != -1 {
+					t.Fatalf("%s: failed frame has Len()=%d\n%s", req, res.Len(), desc())
+				}
+				evC08Proj.Case(false, desc, "op:"+op+":rejected")
+				return
+			case eitherErr && res.Err != nil:
+				evC08Proj.Case(false, desc, "op:"+op+":unknown-rejected")
+				return
 			}
-		}
-		desc := func() string { return d.String() + "request " + req }
-		switch {
-		case wantErr:
-			if res.Err == nil {
-				t.Fatalf("%s must be rejected through Err\n%s", req, desc())
+			if res.Err != nil {
+				t.Fatalf("%s returned Err: %v\n%s", req, res.Err, desc())
 			}
-			if res.Len() != -1 {
-				t.Fatalf("%s: failed frame has Len()=%d\n%s", req, res.Len(), desc())
+			got, err := hx.Observe(res)
+			if err != nil {
+				t.Fatalf("observe: %v\n%s", err, desc())
 			}
-			evC08Proj.Case(false, desc, "op:"+op+":rejected")
-			return
-		case eitherErr && res.Err != nil:
-			evC08Proj.Case(false, desc, "op:"+op+":unknown-rejected")
-			return
-		}
-		if res.Err != nil {
-			t.Fatalf("%s returned Err: %v\n%s", req, res.Err, desc())
-		}
-		got, err := hx.Observe(res)
-		if err != nil {
-			t.Fatalf("observe: %v\n%s", err, desc())
-		}
-		if skipRows {
-			if len(got.Cols) != 0 {
-				t.Fatalf("%s: want no columns, got %q\n%s", req, got.Names(), desc())
+			if skipRows {
+				if len(got.Cols) != 0 {
+					t.Fatalf("%s: want no columns, got %q\n%s", req, got.Names(), desc())
+				}
+			} else {
+				if diff := hx.Diff(want, got); diff != "" {
+					t.Fatalf("%s differs from model: %s\n%s\nresult %s", req, diff, desc(), got.String())
+				}
+				if res.Len() != want.N() {
+					t.Fatalf("%s: Len()=%d, want %d\n%s", req, res.Len(), want.N(), desc())
+				}
 			}
-		} else {
-			if diff := hx.Diff(want, got); diff != "" {
-				t.Fatalf("%s differs from model: %s\n%s\nresult %s", req, diff, desc(), got.String())
+			// the receiver is untouched
+			after, err := hx.Observe(cur)
+			if err != nil || hx.Diff(in, after) != "" {
+				t.Fatalf("%s changed its receiver: %v %s\n%s", req, err, hx.Diff(in, after), desc())
 			}
-			if res.Len() != want.N() {
-				t.Fatalf("%s: Len()=%d, want %d\n%s", req, res.Len(), want.N(), desc())
-			}
+			evC08Proj.Class("op:" + op)
+			cur, in = res, want
 		}
-		// the receiver is untouched
-		after, err := hx.Observe(d.QF)
-		if err != nil || hx.Diff(in, after) != "" {
-			t.Fatalf("%s changed its receiver: %v %s\n%s", req, err, hx.Diff(in, after), desc())
-		}
-		evC08Proj.Case(d.NonIdentity() && n >= 2, desc, "op:"+op)
+		evC08Proj.Case(d.NonIdentity() && d.Exp.N() >= 2, desc, fmt.Sprintf("chain=%d", len(reqs)))
 	})
 }
